@@ -1,6 +1,7 @@
 import C2paModel.Model.C26
 import C2paModel.Lemmas.C26Stack
 import C2paModel.Lemmas.C27Net
+import C2paModel.Gen.C28HttpSites
 /-
 C27 — property theorems. The statement (properties.jsonl):
 
@@ -193,6 +194,65 @@ example : BlockedV6 0 0 0 0 0 0xffff 0xa9fe 0xa9fe := by unfold BlockedV6 Blocke
 example : ¬ BlockedV6 0x2606 0x2800 0x220 1 0x248 0x1893 0x25c8 0x1946 := by
   unfold BlockedV6 BlockedV4; omega
 
+
+/-- The IPv4-mapped rest of `0.0.0.0/8` (blocked through the IPv4 rule `a == 0`). -/
+def MappedThisNetwork (s0 s1 s2 s3 s4 s5 s6 s7 : Nat) : Prop :=
+  s0 = 0 ∧ s1 = 0 ∧ s2 = 0 ∧ s3 = 0 ∧ s4 = 0 ∧ s5 = 0xffff ∧ s6 * 0x10000 + s7 ≤ 0x00ffffff
+
+/-- **The IPv6 classification blocks exactly the listed blocks (incl. IPv4-mapped listed blocks)
+plus the IPv4-mapped rest of `0.0.0.0/8`** — nothing else. In particular IPv4-compatible
+(`::a.b.c.d`), NAT64 (`64:ff9b::/96`), 6to4 (`2002::/16`) and `::ffff:0:a.b.c.d` forms of an
+internal IPv4 address are *not* unwrapped (see `v4_in_v6_not_unwrapped`). Widening a mask or
+dropping the mapped unwrap falsifies this. -/
+theorem v6_exact (s0 s1 s2 s3 s4 s5 s6 s7 : Nat)
+    (h0 : s0 < 65536) (h6 : s6 < 65536) (h7 : s7 < 65536) :
+    ipv6IsNonGlobal [s0, s1, s2, s3, s4, s5, s6, s7] = true ↔
+      (BlockedV6 s0 s1 s2 s3 s4 s5 s6 s7 ∨ MappedThisNetwork s0 s1 s2 s3 s4 s5 s6 s7) := by
+  constructor
+  · intro h
+    by_cases hm : s0 = 0 ∧ s1 = 0 ∧ s2 = 0 ∧ s3 = 0 ∧ s4 = 0 ∧ s5 = 0xffff
+    · obtain ⟨rfl, rfl, rfl, rfl, rfl, rfl⟩ := hm
+      unfold ipv6IsNonGlobal at h
+      rw [toIpv4Mapped_mapped] at h
+      simp only at h
+      have hv : v4Num (s6 / 256) (s6 % 256) (s7 / 256) (s7 % 256) = s6 * 0x10000 + s7 := by
+        unfold v4Num; omega
+      rcases (v4_exact _ _ _ _ (by omega) (by omega) (by omega) (by omega)).1 h with hb | hb
+      · left; unfold BlockedV6
+        right; right; right; right; right
+        exact ⟨rfl, rfl, rfl, rfl, rfl, rfl, by rw [← hv]; exact hb⟩
+      · right; exact ⟨rfl, rfl, rfl, rfl, rfl, rfl, by rw [← hv]; exact hb⟩
+    · left
+      unfold ipv6IsNonGlobal at h
+      rw [toIpv4Mapped_none _ _ _ _ _ _ _ _ hm] at h
+      simp only [List.headD_cons, Bool.or_eq_true, beq_iff_eq, List.cons.injEq, and_true] at h
+      rw [mask_ff00 s0 h0, mask_fe00 s0 h0, mask_ffc0 s0 h0] at h
+      unfold BlockedV6
+      rcases h with (((h | h) | h) | h) | h
+      · left; exact h
+      · right; left; exact h
+      · right; right; left; exact h
+      · right; right; right; left; exact h
+      · right; right; right; right; left; exact h
+  · rintro (h | ⟨rfl, rfl, rfl, rfl, rfl, rfl, h⟩)
+    · exact v6_sound _ _ _ _ _ _ _ _ h0 h6 h7 h
+    · unfold ipv6IsNonGlobal
+      rw [toIpv4Mapped_mapped]
+      simp only
+      apply (v4_exact _ _ _ _ (by omega) (by omega) (by omega) (by omega)).2
+      right
+      have hv : v4Num (s6 / 256) (s6 % 256) (s7 / 256) (s7 % 256) = s6 * 0x10000 + s7 := by
+        unfold v4Num; omega
+      rw [hv]; exact h
+
+/-- Facts pinned, not violations (the statement names IPv4-*mapped* literals only): an internal IPv4
+address embedded in another IPv6 form is classified by the IPv6 rules alone. -/
+theorem v4_in_v6_not_unwrapped :
+    hostStrIsNonGlobal (bytesOf "[::127.0.0.1]") = false ∧          -- IPv4-compatible
+    hostStrIsNonGlobal (bytesOf "[64:ff9b::169.254.169.254]") = false ∧  -- NAT64
+    hostStrIsNonGlobal (bytesOf "[2002:7f00:1::1]") = false ∧       -- 6to4
+    hostStrIsNonGlobal (bytesOf "[::ffff:0:10.0.0.1]") = false := by decide  -- SIIT
+
 /-! ### literals and names as they appear in a URI host -/
 
 /-- Verdict for a host that parses as an IP address: the address classification. -/
@@ -297,13 +357,42 @@ theorem literal_mapped_blocked (a b c d : Nat) (ha : a < 256) (hb : b < 256) (hc
   rw [this]; exact h
 
 /-- **Any host that parses as an IPv6 literal of a listed block is refused** (whatever its text
-form: compressed, expanded, upper case, embedded dotted quad). -/
+form: compressed, expanded, upper case, embedded dotted quad, with or without brackets / trailing
+dot). No hypothesis on the segments: `parseIp_v6_shape` shows the parser only returns eight
+16-bit segments. -/
 theorem literal_v6_blocked (h : Bytes) (s0 s1 s2 s3 s4 s5 s6 s7 : Nat)
     (hp : parseIp (normalizeHost h) = some (.v6 [s0, s1, s2, s3, s4, s5, s6, s7]))
-    (h0 : s0 < 65536) (h6 : s6 < 65536) (h7 : s7 < 65536)
     (hb : BlockedV6 s0 s1 s2 s3 s4 s5 s6 s7) : hostStrIsNonGlobal h = true := by
   rw [parsed_host_verdict h _ hp]
-  exact v6_sound _ _ _ _ _ _ _ _ h0 h6 h7 hb
+  have hs := (parseIp_v6_shape _ _ hp).2
+  exact v6_sound _ _ _ _ _ _ _ _ (hs s0 (by simp)) (hs s6 (by simp)) (hs s7 (by simp)) hb
+
+/-- **Exact verdict for every host text that parses as an IPv6 address**: the parse result has
+exactly eight segments, and the host is refused iff they form a listed block or the IPv4-mapped
+rest of `0.0.0.0/8`. Covers every spelling of an IPv4-mapped literal (`::ffff:a.b.c.d`,
+`::ffff:hhhh:hhhh`, expanded, upper case), not only the one of `literal_mapped_blocked`. -/
+theorem literal_v6_exact (h : Bytes) (g : List Nat)
+    (hp : parseIp (normalizeHost h) = some (.v6 g)) :
+    ∃ s0 s1 s2 s3 s4 s5 s6 s7, g = [s0, s1, s2, s3, s4, s5, s6, s7] ∧
+      (hostStrIsNonGlobal h = true ↔
+        (BlockedV6 s0 s1 s2 s3 s4 s5 s6 s7 ∨ MappedThisNetwork s0 s1 s2 s3 s4 s5 s6 s7)) := by
+  obtain ⟨hlen, hs⟩ := parseIp_v6_shape _ _ hp
+  obtain ⟨s0, s1, s2, s3, s4, s5, s6, s7, rfl⟩ := eight_of_length g hlen
+  refine ⟨s0, s1, s2, s3, s4, s5, s6, s7, rfl, ?_⟩
+  rw [parsed_host_verdict h _ hp]
+  exact v6_exact _ _ _ _ _ _ _ _ (hs s0 (by simp)) (hs s6 (by simp)) (hs s7 (by simp))
+
+/-- Exact verdict for every host text that parses as an IPv4 address (no hypothesis on the octets:
+`parseIp_v4_le`). -/
+theorem literal_v4_exact (h : Bytes) (a b c d : Nat)
+    (hp : parseIp (normalizeHost h) = some (.v4 a b c d)) :
+    hostStrIsNonGlobal h = true ↔ (BlockedV4 (v4Num a b c d) ∨ v4Num a b c d ≤ 0x00ffffff) := by
+  obtain ⟨ha, hb, hc, hd⟩ := parseIp_v4_le _ _ _ _ _ hp
+  rw [parsed_host_verdict h _ hp]
+  exact v4_exact a b c d (by omega) (by omega) (by omega) (by omega)
+
+example : parseIp (normalizeHost (bytesOf "[0:0:0:0:0:FFFF:A9FE:A9FE]")) =
+    some (.v6 [0, 0, 0, 0, 0, 0xffff, 0xa9fe, 0xa9fe]) := by decide
 
 example : hostStrIsNonGlobal (bytesOf "[::1]") = true := by decide
 example : hostStrIsNonGlobal (bytesOf "[FE80::1]") = true := by decide
@@ -627,5 +716,136 @@ example :
     isTargetDisallowed r.2 = true ∧ r.1.trace.length = 2 ∧
     (r.1.trace.tail.map (·.headers)) = [[{ name := bytesOf "accept", value := bytesOf "*/*" }]] := by
   decide
+
+/-! ### the statement in one piece: no redirect hop goes to a host the statement names -/
+
+/-- The host texts the statement names: a listed IPv4 block as dotted-decimal literal (plain,
+trailing dot, bracketed) or as `[::ffff:a.b.c.d]`; any text that parses as an IPv6 address of a
+listed block (incl. every spelling of an IPv4-mapped listed address); any inet_aton number form
+that is not a standard literal (fail closed, whatever address it denotes); `localhost` and names
+under `.localhost`. Written without reference to the code's predicates. -/
+def ListedHost (h : Bytes) : Prop :=
+  (∃ a b c d, a < 256 ∧ b < 256 ∧ c < 256 ∧ d < 256 ∧ BlockedV4 (v4Num a b c d) ∧
+      (h = dotted a b c d ∨ h = dotted a b c d ++ [46] ∨ h = 91 :: (dotted a b c d ++ [93]) ∨
+       h = mappedLiteral a b c d)) ∨
+  (∃ s0 s1 s2 s3 s4 s5 s6 s7, parseIp (normalizeHost h) = some (.v6 [s0, s1, s2, s3, s4, s5, s6, s7]) ∧
+      BlockedV6 s0 s1 s2 s3 s4 s5 s6 s7) ∨
+  (NumericForm (normalizeHost h) ∧ parseIp (normalizeHost h) = none) ∨
+  (normalizeHost h = localhost ∨ endsWith (normalizeHost h) dotLocalhost = true)
+
+theorem listed_host_refused (h : Bytes) (hl : ListedHost h) : hostStrIsNonGlobal h = true := by
+  rcases hl with ⟨a, b, c, d, ha, hb, hc, hd, hbl, (rfl | rfl | rfl | rfl)⟩ | ⟨s0, s1, s2, s3, s4, s5, s6, s7, hp, hbl⟩ |
+    ⟨hn, hp⟩ | hl
+  · exact (literal_v4_blocked a b c d ha hb hc hd hbl).1
+  · exact (literal_v4_blocked a b c d ha hb hc hd hbl).2.1
+  · exact (literal_v4_blocked a b c d ha hb hc hd hbl).2.2
+  · exact literal_mapped_blocked a b c d ha hb hc hd hbl
+  · exact literal_v6_blocked h _ _ _ _ _ _ _ _ hp hbl
+  · rcases numeric_host_fail_closed h hn with h1 | ⟨ip, hip, _⟩
+    · exact h1
+    · rw [hp] at hip; cases hip
+  · exact localhost_blocked h hl
+
+/-- **No request after the first goes to a host the statement names**, for every transport, every
+`Url::join` behaviour, every allow-list configuration, both redirect settings, every request and
+redirect history: each later request has a host, and that host is not a listed one. -/
+theorem redirects_never_reach_listed (t : Transport) (join : JoinFn)
+    (allowed : Option (List Pattern)) (redirects : Bool) (req : Request) :
+    ∀ r ∈ (stack t join allowed redirects req).1.trace.tail,
+      ∃ h, r.uri.host = some h ∧ ¬ ListedHost h := by
+  intro r hr
+  have h1 := redirects_never_reach_internal t join allowed redirects req r hr
+  cases hh : r.uri.host with
+  | none => simp [hostIsNonGlobal, hh] at h1
+  | some h =>
+    refine ⟨h, rfl, fun hl => ?_⟩
+    have := listed_host_refused h hl
+    simp [hostIsNonGlobal, hh, this] at h1
+
+example : ListedHost (bytesOf "169.254.169.254") :=
+  Or.inl ⟨169, 254, 169, 254, by omega, by omega, by omega, by omega, by unfold BlockedV4 v4Num; omega,
+    Or.inl (by decide)⟩
+example : ListedHost (bytesOf "[FE80::1]") :=
+  Or.inr (Or.inl ⟨0xfe80, 0, 0, 0, 0, 0, 0, 1, by decide, by unfold BlockedV6; omega⟩)
+
+/-! ### "the SDK": the request sites
+
+The redirect guarantees above are those of `RedirectResolver` inside `Context::resolver()`. Two
+request sites of sdk/src do not use the caller's Context (`Model/C26.lean`, `Site`): for them parts
+of the statement are **false**; the witnesses are replayed on the real code over a loopback
+listener (known findings `remote-signer-follows-redirect-to-internal-host`,
+`remote-signer-follows-redirect-while-disabled`, `signer-timestamp-request-ignores-allow-redirects`). -/
+
+/-- no redirect hop issued at `site` goes to a host the classification refuses -/
+def SiteNeverRedirectsToInternal (site : Site) : Prop :=
+  ∀ (t : Transport) (join : JoinFn) (allowed : Option (List Pattern)) (redirects : Bool) (req : Request),
+    ∀ r ∈ (siteStack site t join allowed redirects req).1.trace.tail, hostIsNonGlobal r.uri = false
+
+/-- with `core.allow_redirects = false` in the caller's configuration no redirect is followed at `site` -/
+def SiteHonoursDisabled (site : Site) : Prop :=
+  ∀ (t : Transport) (join : JoinFn) (allowed : Option (List Pattern)) (req : Request),
+    (siteStack site t join allowed false req).1.trace.length ≤ 1
+
+/-- The two clauses of the statement over every request site. False of the current code. -/
+def EverySiteGuardsRedirects : Prop :=
+  ∀ site, SiteNeverRedirectsToInternal site ∧ SiteHonoursDisabled site
+
+/-- a client that follows the redirect to the metadata address -/
+def metaT : Transport := fun hop _ =>
+  if hop = 0 then .ok { status := 302, location := .str (bytesOf "http://169.254.169.254/latest/") }
+  else .ok { status := 200, location := .absent }
+def metaJ : JoinFn := fun _ _ _ => .ok metaUri
+
+/-- **Redirect targets are classified at every site except the remote signer**, whose HTTP client
+follows redirects by itself. -/
+theorem site_never_internal_iff (site : Site) :
+    SiteNeverRedirectsToInternal site ↔ site ≠ .remoteSigner := by
+  constructor
+  · intro h hs
+    subst hs
+    have := h metaT metaJ none true loopReq { loopReq with uri := metaUri } (by decide)
+    revert this; decide
+  · intro hs t join allowed redirects req
+    cases site with
+    | contextResolver => exact redirects_never_reach_internal t join allowed redirects req
+    | signerTimestamp => exact redirects_never_reach_internal t join none true req
+    | remoteSigner => exact absurd rfl hs
+
+/-- **`allow_redirects = false` is honoured only through the Context resolver**: the signer's
+default time-stamp request runs under a default-settings Context (redirects on), the remote signer
+under a client that follows by itself. -/
+theorem site_honours_disabled_iff (site : Site) : SiteHonoursDisabled site ↔ site = .contextResolver := by
+  constructor
+  · intro h
+    cases site with
+    | contextResolver => rfl
+    | signerTimestamp =>
+      have := h loopTransport loopJoin none loopReq
+      revert this; decide
+    | remoteSigner =>
+      have := h loopTransport loopJoin none loopReq
+      revert this; decide
+  · rintro rfl t join allowed req
+    exact (disabled_refuses_all t join allowed req).1
+
+theorem every_site_guards_redirects_false : ¬ EverySiteGuardsRedirects := by
+  intro h
+  have := (site_honours_disabled_iff .signerTimestamp).1 (h .signerTimestamp).2
+  cases this
+
+/-- What remains true of the full statement `EverySiteGuardsRedirects`: the Context-resolver site
+satisfies both clauses, and the signer's time-stamp site the first. -/
+theorem every_site_guards_redirects_partial :
+    (SiteNeverRedirectsToInternal .contextResolver ∧ SiteHonoursDisabled .contextResolver) ∧
+    SiteNeverRedirectsToInternal .signerTimestamp :=
+  ⟨⟨(site_never_internal_iff _).2 (by decide), (site_honours_disabled_iff _).2 rfl⟩,
+   (site_never_internal_iff _).2 (by decide)⟩
+
+/-- The one client that follows redirects natively is the remote signer's: generated from sdk/src on
+every run (`with_redirects()` outside sdk/src/http), pinned here; the default-settings Contexts are
+pinned by `C2pa.C26.request_sites_pinned`. -/
+theorem native_redirect_clients_pinned :
+    C28.Gen.nativeRedirectClients = [("settings/signer.rs", "sign")] := by decide
+
 
 end C2pa.C27
